@@ -54,6 +54,21 @@ reg("C04", "exploration",
     "One known finding (mono-intron models differing only in polyA site) is listed in known_findings.jsonl.",
     "property-based testing (Hypothesis) with recount oracle over outputs and inputs", "DESIGN.md section 4 C04")
 
+reg("C13", "exploration",
+    "Hypothesis-generated annotations (shared, contained, multi-gene features) and read sets run with --count_exons; "
+    "an independent three-valued recount from read_assignments.tsv + the input GTF bounds every include/exclude "
+    "cell (exact where the statement is definite), checks one row per (feature, group), row attributes against the "
+    "annotation and that grouped rows partition the ungrouped ones.",
+    "Features contested between several annotated features within delta and partial overlaps are UNSPECIFIED (grey, "
+    "counted in the evidence).",
+    "property-based testing (Hypothesis) with independent recount oracle", "DESIGN.md section 4 C13")
+reg("C14", "exploration",
+    "Hypothesis-generated reads with alignment artefacts under all six splice-correction strategies (and an "
+    "annotation-free stage with generated short-read BAMs); BED12 validity predicate plus a provenance oracle for "
+    "every corrected splice site and read end.",
+    "Original alignment = exons column of read_assignments.tsv (after polyA-exon trimming, which C16 checks).",
+    "property-based testing (Hypothesis) with validity predicate + provenance oracle", "DESIGN.md section 4 C14")
+
 NOT_YET = "check not built yet in this session (see DESIGN.md section 6a build order)"
 
 
